@@ -1,4 +1,5 @@
 //! E4 — exhaustive string enumeration for the parsers (C15, C16), plus round trips over all values.
+use crate::refmodel as rm;
 use crate::explore::last_panic;
 use crate::report::{self, FamilyResult, Stats, Violation};
 use arimaa_engine_step::*;
@@ -141,6 +142,66 @@ pub fn c16_long_tails(prop: &str, max_tail: usize) -> FamilyResult {
     FamilyResult { explorer: "E4".into(), family: fam, complete: !report::stopped(), note: String::new(), stats: st, wall_s: t0.elapsed().as_secs_f64() }
 }
 
+/// Aliasing code points: every printed token (256 steps, pass, 64 squares, 12 piece letters, 4 directions) with ONE
+/// character replaced by every code point that agrees with it on the low 7 or 8 bits (hence also on the low 16: all 16
+/// supplementary planes), and with ALL characters moved to the same plane.  A parser that packs, truncates or masks
+/// characters (`as u8`, 16 bits per character, `& 0x7f`) accepts some of these; none is the printed form of anything.
+pub fn c16_aliases(prop: &str) -> FamilyResult {
+    let t0 = Instant::now();
+    let fam = "E4 aliasing code points: every printed token with one character replaced by every code point equal to it modulo 128 or 256 (all planes up to U+10FFFF), and with all characters shifted by the same multiple of U+10000".to_string();
+    let mut tokens: Vec<String> = vec!["p".into()];
+    for f in b'a'..=b'h' {
+        for r in b'1'..=b'8' {
+            tokens.push(format!("{}{}", f as char, r as char));
+            for d in ['n', 'e', 's', 'w'] {
+                tokens.push(format!("{}{}{}", f as char, r as char, d));
+            }
+        }
+    }
+    for c in "EMHDCRemhdcrnesw".chars() {
+        tokens.push(c.to_string());
+    }
+    let fam2 = fam.clone();
+    let mut st = tokens
+        .par_iter()
+        .enumerate()
+        .fold(Stats::default, |mut st, (ti, tok)| {
+            if report::stopped() {
+                return st;
+            }
+            let chars: Vec<char> = tok.chars().collect();
+            let mut run = |s: &str, st: &mut Stats| {
+                check_one::<Action>(prop, &fam2, ti as u64, s, "Action", true, st);
+                check_one::<Square>(prop, &fam2, ti as u64, s, "Square", false, st);
+                check_one::<Piece>(prop, &fam2, ti as u64, s, "Piece", true, st);
+                check_one::<Direction>(prop, &fam2, ti as u64, s, "Direction", false, st);
+                st.states += 1;
+            };
+            for pos in 0..chars.len() {
+                let c = chars[pos] as u32;
+                let mut cp = (c & 0x7f) + 0x80;
+                while cp <= 0x10_ffff {
+                    if let Some(ch) = char::from_u32(cp) {
+                        let mut v = chars.clone();
+                        v[pos] = ch;
+                        let s: String = v.iter().collect();
+                        run(&s, &mut st);
+                    }
+                    cp += 0x80;
+                }
+            }
+            for plane in 1..=16u32 {
+                let s: String = chars.iter().map(|&ch| char::from_u32(ch as u32 + plane * 0x1_0000).unwrap()).collect();
+                run(&s, &mut st);
+            }
+            st
+        })
+        .reduce(Stats::default, Stats::merge);
+    st.roots = tokens.len() as u64;
+    st.sample(0, format!("{:?}", ["a1\u{1006e}", "\u{10061}1n", "a\u{131}n", "\u{e1}1"]));
+    FamilyResult { explorer: "E4".into(), family: fam, complete: !report::stopped(), note: String::new(), stats: st, wall_s: t0.elapsed().as_secs_f64() }
+}
+
 /// Round trips over all values and the square/index/bit conversions.
 pub fn c16_values(prop: &str) -> FamilyResult {
     let t0 = Instant::now();
@@ -257,7 +318,30 @@ fn parse_state_no_panic(prop: &str, fam: &str, idx: u64, s: &str, st: &mut Stats
     match r {
         Err(_) => viol(prop, fam, idx, s, "GameState", "GameState::from_str panics", last_panic(), "Ok or Err".into()),
         Ok(Ok(_)) => st.add("e4_accepted", 1),
-        Ok(Err(_)) => st.add("e4_rejected", 1),
+        Ok(Err(_)) => {
+            st.add("e4_rejected", 1);
+            canary(prop, fam, idx, s, st);
+        }
+    }
+}
+
+/// After a REJECTED text the very next parse on the same thread must be unaffected: a fixed diagram is parsed and the
+/// result compared (==, hash) with the same position built without the parser.  Parsers that keep scratch state between
+/// calls (buffers, lazily compiled tables) leak it exactly on error paths.
+fn canary(prop: &str, fam: &str, idx: u64, rejected: &str, st: &mut Stats) {
+    let mut b = [rm::EMPTY; 64];
+    b[crate::e2::sq("d4")] = rm::cell(true, 5);
+    b[crate::e2::sq("h1")] = rm::cell(true, 0);
+    b[crate::e2::sq("a8")] = rm::cell(false, 0);
+    b[crate::e2::sq("e5")] = rm::cell(false, 2);
+    let text = rm::diagram(&b, false, 7);
+    let want = crate::glue::state_from_board(&b, false, 7);
+    st.add("c15_canary_parses_after_a_rejected_text", 1);
+    match catch_unwind(AssertUnwindSafe(|| text.parse::<GameState>())) {
+        Ok(Ok(g)) if g == want && g.transposition_hash() == want.transposition_hash() && g.to_string() == want.to_string() => {}
+        Ok(Ok(g)) => viol(prop, fam, idx, rejected, "GameState", "C15: after this text was rejected, the next from_str on the same thread returns a different state than the text denotes", g.to_string(), want.to_string()),
+        Ok(Err(_)) => viol(prop, fam, idx, rejected, "GameState", "C15: after this text was rejected, the next from_str on the same thread rejects a valid diagram", "Err".into(), want.to_string()),
+        Err(_) => viol(prop, fam, idx, rejected, "GameState", "C15: after this text was rejected, the next from_str on the same thread panics", last_panic(), want.to_string()),
     }
 }
 
